@@ -16070,6 +16070,16 @@ func (l *Lowerer) buildGlobalExpressions() {
 	}
 }
 
+// moduleTypeByName finds a named type in the module's current type arena.
+func (l *Lowerer) moduleTypeByName(name string) (ir.TypeHandle, bool) {
+	for i := range l.module.Types {
+		if l.module.Types[i].Name == name {
+			return ir.TypeHandle(i), true
+		}
+	}
+	return 0, false
+}
+
 // buildGlobalExprFromAST recursively converts an AST expression into global expressions.
 // This handles constructor inits for global variables (struct, vector, matrix constructors).
 // Returns the ExpressionHandle and true on success, or (0, false) on failure.
@@ -16099,7 +16109,9 @@ func (l *Lowerer) buildGlobalExprFromAST(
 
 	case *parser.CallExpr:
 		// Struct constructor: StructName(arg1, arg2, ...)
-		structTypeH, ok := l.types[e.Func.Name]
+		// (looked up in the module: the name table l.types still holds the
+		// handles from before CompactTypes / ReorderTypes)
+		structTypeH, ok := l.moduleTypeByName(e.Func.Name)
 		if !ok {
 			return 0, false
 		}
